@@ -604,7 +604,7 @@ func (f *BytecodeFunction) disassembleUnsignedUnevenNumericOperands(output io.Wr
 	f.printOpCode(output, opcode)
 
 	currentOffset := offset + 1
-	for operandBytes := range operands {
+	for _, operandBytes := range operands {
 		readFunc := readFuncForUnsignedBytes(operandBytes)
 		a := readFunc(f.Instructions[currentOffset:])
 		currentOffset += operandBytes
